@@ -68,6 +68,12 @@ CHECKS = {
         "Streams identified by value tuples; three known findings (O<n> name extending a label, label on a non-leaf user node, ambiguous suffix) excluded by input-only predicates.",
         "DESIGN.md section 5 C10",
     ),
+    "C12": (
+        "Hypothesis @given problem x transformation; metamorphic relations between the two service results",
+        "Generated-input search (1.2k quick / 30k thorough pairs): permutation, split at an interior temperature, parallel branches, translation, duty scaling, zone renaming and temperature-axis mirroring; Qh, Qc, Qr, every utility duty by name, pinch temperatures (shifted / negated-and-swapped) for DI, Total-Process and Total-Site records, and the composite / grand composite graph curves where the transformation leaves them unchanged.",
+        "Pairs with an exact residual or enthalpy step below 1e-4 x total duty are skipped and counted; ladders have levels >= 1 K apart; the R6 asymmetry is excluded by its input-only predicate.",
+        "DESIGN.md section 5 C12",
+    ),
     "C13": (
         "Hypothesis @given problems x graph options; geometric differential (Chebyshev point-to-polyline) between emitted graphs and the stored table slices",
         "Generated-input search (800 quick / 20k thorough): every emitted point is a table row within display rounding and in order, every table row of the non-flat extent lies within 0.011 of the emitted polyline, segment colours follow the sign of the enthalpy change without mixed-sign segments, extents equal stream duties / Qh / Qc, and graph-set keys, names and types are as documented for every target incl. total-site sets.",
